@@ -190,6 +190,28 @@ def _run_case(case, rec, mon=None):
         except Exception as e:
             rec.count("bank_construction_raised")
             bank = None
+        if bank is not None and (case["idx"] % 7 == 3 or case.get("copy")):
+            # the bank as a worker process / a copied computer sees it (deep copy, pickle round trip, shallow copy): the same filters
+            from ..common import copied, COPY_WAYS
+
+            way = case.get("copy") or COPY_WAYS[(case["idx"] // 7) % 3]
+            try:
+                bank = copied(bank, way)
+                rec.count("banks_asked_through_a_%s" % way)
+            except Exception as e:
+                mon.v("copying (%s) a %s bank raised %r" % (way, cfg["name"], e), check="copy_raise", cfg=cfg)
+                bank = None
+        partner = None
+        if bank is not None and case["idx"] % 4 == 1:
+            # a second bank alive in the same process and asked in turn with the first, width by width: for the triangular banks
+            # the real / analytic counterpart of the same layout, otherwise another object of the same configuration
+            pcfg = dict(cfg, analytic=not cfg.get("analytic", False)) if cfg["name"] in ("tri", "fbank") else dict(cfg)
+            try:
+                partner = gen.build_bank(pcfg)
+                mon.cfg_of[id(partner)] = pcfg
+                rec.count("banks_asked_in_turn_with_a_counterpart")
+            except Exception:
+                partner = None
         if bank is not None:
             mon.cfg_of[id(bank)] = cfg
             nf = bank.num_filts
@@ -215,6 +237,11 @@ def _run_case(case, rec, mon=None):
                             bank.get_truncated_response(i, W)
                     except Exception:
                         pass
+                    if partner is not None:
+                        try:
+                            partner.get_truncated_response(i, W)
+                        except Exception:
+                            pass
             # the first widths again, after everything else has been asked
             for W in Ws[:6]:
                 try:
@@ -272,6 +299,16 @@ def run_shard(spec, rec):
                    "scaling_function": str(rng.choice(["mel", "bark"])), "analytic": bool(i % 200 == 7)}
             run_case({"idx": 10 ** 7 + i, "seed": spec["seed"], "cfg": cfg, "widths": [rate, rate + 1, 2 * rate, 2 * rate + 1, 3 * rate + 1]}, rec, mon)
             rec.count("directed_triangular_banks_inside_the_nyquist_leeway")
+        if i % 100 == 57:
+            # directed: Gabor banks of one to three filters over the whole band - filters so wide that their support covers the whole
+            # period (the documented whole-spectrum fallback) - asked directly and through each kind of copy
+            rate = int(rng.choice([8000, 16000]))
+            for j, (nf, thr) in enumerate(((1, None), (2, 5e-5), (3, 5e-6))):
+                cfg = {"name": "gabor", "num_filts": nf, "sampling_rate": rate, "low_hz": 0.0, "high_hz": rate / 2, "erb": bool((i // 100 + j) % 2),
+                       "scaling_function": {"name": "linear", "low_hz": 0.0, "slope_hz": 1.0}}
+                for way in (None, "deepcopy", "pickle", "copy"):
+                    run_case({"idx": 2 * 10 ** 7 + 10 * i + j, "seed": spec["seed"], "cfg": cfg, "threshold": thr, "copy": way, "widths": [7, 8, 33, 64, 255]}, rec, mon)
+            rec.count("directed_whole_period_gabor_banks_direct_and_copied")
     monitor.report(rec)
     monitor.detach_all()
 
